@@ -53,6 +53,8 @@ BODIES = [
     ("nested_class_body", 1, ["class Box:", "    v = recurse(x - 1) if x > 0 else call_next(x)", "return ('A', Box.v)"]),
     # a nested lambda / def whose PARAMETER is called like the function (or like recurse): inside it the name is the parameter
     ("shadowing_lambda", 1, ["bump = lambda F: F + 1", "return (bump(x), recurse(x - 1)) if x > 0 else call_next(x)"]),
+    ("shadowing_default", 1, ["g = lambda v, recurse=recurse: recurse(v - 1) if v > 0 else 0", "pick = lambda recurse: recurse",
+                              "return (pick(x), g(x), recurse(x - 1)) if x > 0 else call_next(x)"]),
     ("shadowing_def", 1, ["def twice(recurse):", "    return recurse * 2", "return (twice(x), recurse(x - 1)) if x > 0 else call_next(x)"]),
     ("sentinel_default", 1, ["return (scale is SENT, len(BOX), call_next(x) if x < 2 else recurse(x - 2))"]),
     ("lambda_default", 1, ["return (scale(x), call_next(x) if x < 2 else recurse(x - 2))"]),
